@@ -66,6 +66,9 @@ D1Map   == {Dict(p) : p \in Bodies(KP1, KP, WP)}
            \cup {DefaultDict("int", p) : p \in Bodies(KP, KP, WP)}
            \cup {DefaultDict("list", p) : p \in Len0 \cup Body1(KP, WP)}
            \cup {Counter(p) : p \in Bodies(KP1, KP, {I1, I2})}
+           \* signed multisets: a zero count (== ignores it: a don't-care) and negative counts (significant content)
+           \cup {Counter(<<Pair(Sa, x)>>) : x \in {I0, IntV(-1), IntV(-2)}}
+           \cup {Counter(<<Pair(Sa, x), Pair(I1, I2)>>) : x \in {I0, IntV(-1)}}
 D1Bytes == {ByteArray(q) : q \in UpTo2({IntV(97), IntV(98)})}
            \cup {PyArray(tc, q) : tc \in {"i", "l"}, q \in UpTo2({I1, I2})}
 
